@@ -444,6 +444,19 @@ example : qrAsWritten (⟨[⟨5⟩], 1, 1⟩ : Matrix Fp) = .panic .unwrap ∧
     qr (⟨[⟨5⟩], 1, 1⟩ : Matrix Fp) = some (⟨[⟨1⟩], 1, 1⟩, ⟨[⟨5⟩], 1, 1⟩) := by
   constructor <;> rfl
 
+/-- Non-vacuity of `qr_product` / `qr_upper` over ℝ: the 2×1 input `[3, 4]ᵀ` is factored. -/
+example : ∃ QR, qr (⟨[3, 4], 2, 1⟩ : Matrix ℝ) = some QR := by
+  cases h : qr (⟨[3, 4], 2, 1⟩ : Matrix ℝ) with
+  | some x => exact ⟨x, rfl⟩
+  | none => exact absurd ((qr_none_iff_wide _).mp h) (by decide)
+
+example : (⟨[⟨5⟩], 1, 1⟩ : Matrix Fp).Inv := by decide
+
+/-- the symmetric input of the Cholesky examples -/
+example : (toMat 2 2 (⟨[4, 2, 2, 5], 2, 2⟩ : Matrix ℝ)).transpose = toMat 2 2 ⟨[4, 2, 2, 5], 2, 2⟩ := by
+  ext i j
+  fin_cases i <;> fin_cases j <;> simp [toMat, Decomp.get, EasyMl.Matrix.getIndex]
+
 /-! ### shape rejection -/
 
 /-- Non-square inputs are rejected by Cholesky and LDLᵀ (any element type). -/
